@@ -851,9 +851,13 @@ class RTCPeerConnection(AsyncIOEventEmitter):
                     self.__sctp.transport._set_role(media.dtls.role)
 
         # configure direction
-        for t in self.__transceivers:
-            if description.type in ["answer", "pranswer"]:
-                t._setCurrentDirection(and_direction(t.direction, t._offerDirection))
+        if description.type in ["answer", "pranswer"]:
+            for i, media in enumerate(description.media):
+                if media.kind in ["audio", "video"]:
+                    t = self.__getTransceiverByMLineIndex(i)
+                    t._setCurrentDirection(
+                        and_direction(t.direction, t._offerDirection)
+                    )
 
         # gather candidates
         await self.__gather()
